@@ -16,8 +16,11 @@ RULE = ("End to end: Hypothesis draws run configurations (N in 1..4, W in 1..7 o
         "[0,K); K MRFs of shape NW x NW; num_clusters and window_size echoed; joint: one list per series in input order, "
         "each as long as its series, and the inner labels concatenated equal the final master labelling seen at the "
         "run_end hook split at the cumulative stacked lengths. Helper level: pad_missing_labels / split_joint_labels "
-        "enumerated over all W<=12 x list lengths<=6 and all tuples of <=4 lengths in 1..5. Runs that raise are discarded "
-        "(counted). Non-trivial = completed run with W>=2 (a margin exists); joint runs with >=2 distinct lengths are "
+        "enumerated over all W<=12 x list lengths<=6 and all tuples of <=4 lengths in 1..5. Also: single series with fewer rows "
+        "than sensors; per-pair switching-cost vectors with exact zeros at the chain ends. Runs that the library refuses "
+        "(RuntimeError, AssertionError, ValueError incl. LinAlgError) are discarded and counted; a run that dies with a "
+        "KeyError/IndexError/AttributeError/NameError/TypeError on a valid input is reported (no labels were returned). "
+        "Non-trivial = completed run with W>=2 (a margin exists); joint runs with >=2 distinct lengths are "
         "counted separately; distinct by SHA-1 of the case.")
 ASSUMPTIONS = ["the master labelling is observed through the guarded run_end hook", "data are finite"]
 
@@ -45,8 +48,22 @@ def _check_series_labels(labels, T, W, K, who):
     return inner
 
 
+CRASH_TYPES = (LookupError, AttributeError, NameError, TypeError)
+
+
 def execute(case, t):
-    tr = ce.traced_run(case, t, sync_pool=True, record_admm=False)
+    from harness import e2e
+    tr = e2e.run(case, sync_pool=True, record_admm=False)
+    if not tr.ok and isinstance(tr.exc, CRASH_TYPES):
+        # The library refuses some valid-looking inputs on purpose (RuntimeError: donor shortage / one-point cluster, AssertionError:
+        # empty initial cluster, ValueError from the mixture model or a singular matrix): those runs "do not complete" and are set
+        # aside.  A KeyError / IndexError / AttributeError / NameError / TypeError out of a call with a valid series and valid
+        # hyper-parameters is not a refusal: the front end failed to return the labels the statement promises for every series.
+        raise Violation(f"the front end did not return labels for a valid input: it crashed with {type(tr.exc).__name__}: {str(tr.exc)[:160]}")
+    if not tr.ok:
+        t.discard(f"run raised {type(tr.exc).__name__}: {str(tr.exc)[:70]}")
+    if tr.end is None or tr.begin is None:
+        raise Violation("run returned a result without passing through the main loop's begin/end hooks")
     res = tr.result
     W, K, N = case["W"], case["K"], case["N"]
     nw = N * W
